@@ -187,6 +187,23 @@ fn cff2_deep_fields(out: &mut Vec<Field>, d: &[u8], hs: usize, tl: usize, rng: &
                                     fw(out, "CFF2.private.longReal", off, real, n);
                                 }
                                 f(out, "CFF2.private.byte", off + rng.usize_below(size), 1, n);
+                                // a real-number operand in place of an integer of the same
+                                // encoded length (reals reach the blend of the Private DICT)
+                                let toks = crate::surgery::dict_tokens(&d[off..off + size]);
+                                let cands: Vec<(usize, usize)> = toks
+                                    .iter()
+                                    .flat_map(|(_, ops)| ops.iter().map(|(s, l, _)| (*s, *l)))
+                                    .filter(|(_, l)| *l == 2 || *l == 3 || *l == 5)
+                                    .collect();
+                                if !cands.is_empty() {
+                                    let (ts, tl) = cands[rng.usize_below(cands.len())];
+                                    let real: Vec<u8> = match tl {
+                                        2 => vec![30, [0x5f, 0xa1, 0xe9, 0xbf][rng.usize_below(4)]],
+                                        3 => vec![30, [0x1a, 0xe1, 0x9b][rng.usize_below(3)], [0x5f, 0xff, 0x2f][rng.usize_below(3)]],
+                                        _ => vec![30, 0x1a, 0x25, 0xb3, 0x0f],
+                                    };
+                                    fw(out, "CFF2.private.realOperand", off + ts, real, n);
+                                }
                                 let pd = cff_dict(&d[off..off + size]);
                                 if let Some(so) = pd.iter().find(|(o, _)| *o == 19).and_then(|(_, v)| v.last().copied()) {
                                     let subrs = off + so.max(0) as usize;
